@@ -137,6 +137,24 @@ func openBodies(rnd *rand.Rand, remoteAS uint32, localID uint32, thorough bool) 
 		}
 		out = append(out, openBody(4, as2, 90, rid, pl))
 	}
+	// parameter regions longer than 255 octets made of well-formed capability parameters: the one-octet
+	// Optional Parameters Length can only agree with them modulo 256
+	for _, total := range []int{256, 258, 264, 280, 512 + 8} {
+		var pl []byte
+		pl = append(pl, capsParam(good4)...) // 8 octets
+		for len(pl)+6 <= total {
+			pl = append(pl, capsParam(capB(2, nil), capB(70, nil))...) // 6 octets each
+		}
+		for len(pl) < total {
+			pl = append(pl, capsParam(capB(2, nil))...) // 4 octets
+		}
+		if len(pl) == total {
+			b := []byte{4, byte(as2 >> 8), byte(as2), 0, 90}
+			b = append(b, u32B(rid)...)
+			b = append(b, byte(total)) // total mod 256
+			out = append(out, append(b, pl...))
+		}
+	}
 	good := openBody(4, as2, 90, rid, capsParam(mp, good4))
 	for _, d := range []int{-1, 1, -9} {
 		b := append([]byte{}, good...)
@@ -475,6 +493,18 @@ func genCodec(out *sink, rnd *rand.Rand, thorough bool) {
 			b[k] = byte(rnd.Intn(4))
 		}
 		putAddPath(out, b)
+	}
+	for _, n := range []int{62, 63, 64, 65, 100, 255, 256, 1000} {
+		b := make([]byte, 0, 4*n)
+		for i := 0; i < n; i++ {
+			b = append(b, byte(i>>8), byte(i), 1, byte(1+i%3))
+		}
+		putAddPath(out, b)
+		for _, bad := range []int{0, n / 2, n - 1} {
+			c := append([]byte{}, b...)
+			c[4*bad+3] = 0
+			putAddPath(out, c)
+		}
 	}
 	for _, afi := range []int{0, 1, 2, 65535} {
 		for _, safi := range []int{0, 1, 128, 255} {
